@@ -147,6 +147,21 @@ def translate(repo):
         out.append(f"Definition gen_deme_{name} (mx : bool) (h : list (list (list Z))) : {COQ[ty]} :=\n  {code}.\n")
         known[name] = ty
         fns.append(f"{DEME}:AbstractDeme.{name}")
+    # centroid: the mean genome of the CURRENT population, recomputed on every read (no stored value is consulted)
+    e = prop_body(dmod, "AbstractDeme", "centroid", DEME)
+    if not (isinstance(e, ast.Call) and dotted(e.func) == "compute_centroid" and len(e.args) == 1 and not e.keywords):
+        raise Unsupported(f"{DEME}: AbstractDeme.centroid is not compute_centroid(<population>): {ast.unparse(e)[:120]}")
+    code, ty = PTr(DEME, "deme", dict(known)).expr(e.args[0], {})
+    if ty != "inds":
+        raise Unsupported(f"{DEME}: AbstractDeme.centroid is computed from a value of type {ty}")
+    cfn = find_def(dmod, "compute_centroid")
+    cb = [s_ for s_ in cfn.body if not (isinstance(s_, ast.Expr) and isinstance(s_.value, ast.Constant))]
+    pn = cfn.args.args[0].arg
+    if [ast.unparse(s_) for s_ in cb] != [f"if not {pn}:\n    return None", f"return np.mean([ind.genome for ind in {pn}], axis=0)"]:
+        raise Unsupported(f"{DEME}:{cfn.lineno}: compute_centroid is not `None for an empty population, else np.mean of the genomes (axis=0)`")
+    out.append("Definition gen_deme_centroid {M} (mean : list Z -> M) (mx : bool) (h : list (list (list Z))) : M :=\n"
+               f"  mean {code}.   (* mean [] stands for None *)\n")
+    fns += [f"{DEME}:AbstractDeme.centroid", f"{DEME}:compute_centroid"]
     tmod = ast.parse(open(f"{repo}/{TREE}").read())
     # leaves = self.levels[-1]
     tr = PTr(TREE, "tree", {})
